@@ -19,7 +19,7 @@ CHECKS = {
  "C09": ("proof", AI + "; range-reduction structure (congruence, window, abstract re-execution); cell-wise interval automatic differentiation of the idealised result expression with a rounding budget, against a big-integer interval oracle", "exact periodicity on |x| < 2^46; accuracy 4 ulp + r^9/9! and |result| <= 1 for every |x| <= 2 pi (9652 cells); cos through sin(x + pi/2): every clause decided", "11.1, 11.7"),
  "C10": ("proof", AI + "; summary equivalence for oddness; range-reduction structure for the period; pole paths; cell-wise interval automatic differentiation of the idealised result expression with a rounding budget against an interval oracle", "tan odd, period phi, NaN exactly at the pole, and |tan_lib - tan| <= 2.5 ulp (1+tan^2) on |x| <= pi (4321 cells + 192 near-pole arguments): every clause decided", "11.1, 11.7"),
  "C11": ("proof", AI + "; summary equivalence (oddness); per-quadrant boxes with value partitioning of the quotient; cell-wise interval automatic differentiation of the idealised result expression against an interval oracle; abstract re-execution of atan / its series on the quotient symbol; linear bound of the quotient", "atan odd; |atan_lib - atan| <= 5e-5 on all of [0,2^63) (17469 cells); atan2 axis values, (0,0) NaN, quadrant signs, and atan2 == atan(q) + quadrant offset hence within 8e-5; |atan| <= fixpidiv2 by series-of-quotient composition; x <= y => atan x <= atan y + 2 from exact cell-end values, rounding budgets and exact segment-end results: every clause decided", "5 (C11), 6"),
- "C12": ("other", AI + "; region checks on in-program relations; verified loop summary isqrt(N) for the abacus sqrt loop; cell-wise interval automatic differentiation of the idealised result expression (incl. the floating sqrt / the integer square root) against an interval oracle", "NaN exactly for |x| > 1; asin odd, acos within 1 ulp of pi/2 - asin, and the 2-ulp/4-ulp backward/forward accuracy clause, for the std::sqrt and the abacus builds (1317 + 1321 cells + 160 arguments near 1 each). NOT decided: exact monotonicity of asin", "5 (C12), 6"),
+ "C12": ("proof", AI + "; region checks on in-program relations; verified loop summary isqrt(N) for the abacus sqrt loop; cell-wise interval automatic differentiation of the idealised result expression (incl. the floating sqrt / the integer square root) against an interval oracle; direction (monotonicity) tags propagated through the path's instructions", "NaN exactly for |x| > 1; asin odd, acos within 1 ulp of pi/2 - asin, and the 2-ulp/4-ulp backward/forward accuracy clause, for the std::sqrt and the abacus builds (1317 + 1321 cells + 160 arguments near 1 each); asin non-decreasing by direction tags of every SSA value (monotone compositions) plus junction values: every clause decided", "5 (C12), 6"),
  "C13": ("proof", AI + "; loop unrolling with control-aware joins; shape lemma on the value-numbered float expression; inductive loop invariant of the abacus loop checked by abstract execution of one iteration per digit position from a symbolic loop-head state", "NaN below 0, 0 at 0, result in [0,2^16] on the domain for both algorithms; < 1 ulp, monotone, exact squares: std::sqrt algorithm by shape lemma, abacus loop == floor(sqrt(65536 raw)) by the invariant a^2 <= N < (a + 2^(k+1))^2 (32 digit positions, 48 entry classes): every clause decided", "5 (C13), 6"),
  "C14": ("other", AI + "; summary equivalence (symmetry); per-instruction unsigned-wrap tracking", "symmetry (all builds; the abacus loop enters as the verified summary isqrt(N)), never NaN/negative, no intermediate wrap in hypot's own arithmetic (one recorded finding: left-shift branch). NOT decided: 2 ulp / 1.5e-4 accuracy", "5 (C14), 6, 7"),
  "C15": ("proof", AI + "; region checks and summary equivalence", "floor/ceil bracket, integrality, fixed points, ceil == -floor(-x) on the whole stated domain", "5 (C15)"),
